@@ -1134,7 +1134,8 @@ func (c *checker) plain(a *arrRun, cov bool) {
 		}
 		want += v.Asserts
 	}
-	if allMatch && pa != want {
+	// (not under --coverage: the known if-expression double evaluation changes which items execute)
+	if allMatch && !cov && pa != want {
 		w := fmt.Sprintf("the summary line says %d assertions but the tests executed %d assertion calls; %s", pa, want, nums)
 		if pa == want+f {
 			w += fmt.Sprintf(" — the surplus equals the number of failed tests (%d)", f)
